@@ -16,7 +16,7 @@ TECHNIQUE = "fresh-model differential after every operation of a multi-scenario 
 RULE = ("base model: 2 named lookups, 3 constants, arrayed converter, 2 stocks; 2 managers x 3 scenarios registered from ONE model object; "
         "operations: register scenario (constants / only-some points), batch run (equation subsets), session with begin-settings, "
         "steps with constant / points settings, session left open, cache reset, REST /run with settings (constants, points, runspecs), "
-        "evaluate base elements; ALL histories of length<=2 (quick) / <=3 (thorough) over a 12-letter alphabet + seeded random histories "
+        "evaluate base elements; ALL histories of length<=2 (quick) / <=3 (thorough) over a 13-letter alphabet + seeded random histories "
         "of length 4-14. distinct_nontrivial = distinct histories containing a points/constants change of one scenario followed by a "
         "comparison of another scenario that uses the same lookup/constant without overriding it.")
 ASSUMPTIONS = ["a scenario that received settings with an individual STEP is not compared with its own fresh build afterwards (whether step settings outlive the session is not stated); all OTHER scenarios and the base model still are",
@@ -29,7 +29,7 @@ P2 = [[0.0, 0.0], [10.0, 5.0], [40.0, 6.0]]
 BASE = dict(constants=dict(c1=2.0, c2=1.0, c3=0.25), points=dict(p1=P1, p2=P2), run=(0.0, 5.0, 1.0))
 EQS = ["s1", "s2", "f1", "b1", "c1", "c2", "c3", "total"]
 ALPHA = ["reg_const", "reg_pts", "run_A0", "sess_A0_const", "sess_B1_step_pts", "sess_A1_step_const", "reset_A0",
-         "rest_B0", "eval_base", "sess_open_A2", "rest_A0_runspecs", "sess_A01_step_first"]
+         "rest_B0", "eval_base", "sess_open_A2", "rest_A0_runspecs", "sess_A01_step_first", "reg_again"]
 
 
 def build(constants, points, run):
@@ -134,6 +134,15 @@ class World:
             b.register_scenarios({"n": {"constants": {"c1": v}}}, "smA")
             self.settings[("smA", "n")] = {"constants": {"c1": v}}
             self.tainted.discard(("smA", "n"))
+        elif name == "reg_again":
+            # the same scenario name is registered again with OTHER keys: nothing of its previous definition (or of the runs
+            # made with it) may survive
+            kind = r.choice(["c2", "runspecs", "none"])
+            new = {"c2": {"constants": {"c2": v}}, "runspecs": {"runspecs": {"stoptime": 4.0}}, "none": {}}[kind]
+            b.register_scenarios({"n": copy.deepcopy(new)}, "smA")
+            self.settings[("smA", "n")] = copy.deepcopy(new)
+            self.tainted.discard(("smA", "n"))
+            self.touched.append("constants")
         elif name == "reg_pts":
             b.register_scenarios({"p": {"points": {"p1": pts}}}, "smB")
             self.settings[("smB", "p")] = {"constants": {"c3": 0.5}, "points": {"p1": pts}}
